@@ -61,11 +61,12 @@ type nodeMon struct {
 	lastH, lastV uint64
 	sampled      bool
 	// C17, future cache at worker level
-	futMax                  uint64              // highest future height of any message received so far
-	futUnknown              bool                // bytes arrived whose height cannot be told: nothing is expected of the cache any more
-	futExp                  map[uint64][]futExp // height -> messages of correct members that the cache has to hand to the term of that height
-	storeTried              map[string]bool     // (kind, h, v, hash, sender) the protocol logic handed to the Storage
-	storeHeld, storeRefused map[string]bool     // ... that the Storage accepted / turned down although it did not hold it
+	futMax                  uint64                  // highest future height of any message received so far
+	futUnknown              bool                    // bytes arrived whose height cannot be told: nothing is expected of the cache any more
+	futExp                  map[uint64][]futExp     // height -> messages of correct members that the cache has to hand to the term of that height
+	storeTried              map[string]bool         // (kind, h, v, hash, sender) the protocol logic handed to the Storage
+	storeHeld, storeRefused map[string]bool         // ... that the Storage accepted / turned down although it did not hold it
+	heldC                   map[hvh]map[string]bool // COMMIT senders in the node\'s log per (h, v, hash), its own included
 }
 
 // futExp is a PREPARE or COMMIT of a correct member received while its height was still ahead of the node.
@@ -83,7 +84,7 @@ func storeKey(kind spi.Kind, h, v uint64, hash, sender string) string {
 func newNodeMon() *nodeMon {
 	return &nodeMon{proposals: map[hvh]bool{}, validNV: map[hv]map[string]bool{}, prepares: map[hvh]map[string]bool{}, commits: map[hvh]map[string]bool{},
 		votes: map[hv]map[string]*ref.Vote{}, validated: map[string]bool{}, barePP: map[hvh]bool{}, storedPP: map[hv]string{}, blockless: map[hv]bool{}, storedP: map[hvh]map[string]bool{}, heldCert: map[uint64]map[uint64]string{}, ignoredNV: map[uint64]uint64{}, electedAt: map[hv]bool{}, sentPP: map[hv]string{}, sentP: map[hv]string{}, sentC: map[hv]string{}, lastVC: map[uint64]uint64{},
-		storedVC: map[hv]map[string]*interfaces.ViewChangeMessage{}, lastCommitH: -1, lastRoundH: -1, futExp: map[uint64][]futExp{}, storeTried: map[string]bool{}, storeHeld: map[string]bool{}, storeRefused: map[string]bool{}}
+		storedVC: map[hv]map[string]*interfaces.ViewChangeMessage{}, lastCommitH: -1, lastRoundH: -1, futExp: map[uint64][]futExp{}, storeTried: map[string]bool{}, storeHeld: map[string]bool{}, storeRefused: map[string]bool{}, heldC: map[hvh]map[string]bool{}}
 }
 
 type Monitors struct {
@@ -510,6 +511,20 @@ func (m *Monitors) PostDelivery(d *deliveryCtx, effects []spi.Event, panicked bo
 			}
 		}
 	}
+	// ---- a node that has just handled a COMMIT and holds, in its own log, the proposal of (h, v, hash) with its block and COMMITs of
+	// quorum weight for it has handed the block to its commit callback (now or earlier), whatever became of its own sends
+	if msg.Env == ref.EnvC && d.mustIgn == "" && !panicked && !d.handoff && d.inComm && d.pre.H == msg.H {
+		nm := nm0(m, n)
+		k := hvh{msg.H, msg.V, string(msg.Hash)}
+		if nm.storedPP[hv{msg.H, msg.V}] == string(msg.Hash) && !nm.blockless[hv{msg.H, msg.V}] && weightOK(m.w.Comm(msg.H), nm.heldC[k]) {
+			m.Stats["C05 commit quorums in a node's log judged"]++
+			if nm.lastCommitH < int64(msg.H) {
+				for _, p := range []string{"C05", "C12"} {
+					m.violate(p, "commit-quorum-held-but-not-committed", "node %s holds the proposal of (h=%d v=%d hash=%x) with its block and COMMITs of %v — quorum weight — in its log after handling the COMMIT of %s, and has not handed the block to its commit callback", n.Id, msg.H, msg.V, short(msg.Hash), idsOf(nm.heldC[k]), msg.Sender.Id)
+				}
+			}
+		}
+	}
 	// ---- C11: honest emissions are accepted by correct peers in a matching state
 	if f.Honest && m.JudgeC11 && m.w.IsCorrect(f.From) && d.pre.H == msg.H && d.inComm {
 		if d.handoff {
@@ -611,7 +626,21 @@ func (m *Monitors) judgeC11(d *deliveryCtx, effects []spi.Event) {
 	}
 }
 
-func (m *Monitors) PostSync(n *Node, pre *deliveryCtx, bh uint64, effects []spi.Event) { m.sample(n) }
+func (m *Monitors) PostSync(n *Node, pre *deliveryCtx, bh uint64, effects []spi.Event) {
+	m.sample(n)
+	// C14: the round a node enters by sync above height 1 is never one it may lead as first leader (the new-round callback
+	// reports the flag the term was built with); rounds started further down in the same step follow commits and are not judged
+	for i := range effects {
+		e := &effects[i]
+		if e.Node == n.Id && e.Kind == spi.EvNewRound && e.H == bh+1 {
+			m.Stats["C14 rounds entered by sync judged"]++
+			if e.Ok && e.H > 1 {
+				m.violate("C14", "first-leader-in-a-round-entered-by-sync", "node %s entered height %d by a sync with block %d and the round was started with canBeFirstLeader=true", n.Id, e.H, bh)
+			}
+			break
+		}
+	}
+}
 func (m *Monitors) PostTimeout(n *Node, pre *deliveryCtx, h, v uint64, effects []spi.Event) {
 	m.sample(n)
 }
@@ -984,6 +1013,13 @@ func (m *Monitors) onStore(n *Node, nm *nodeMon, e *spi.Event) {
 		nm.storeTried[k] = true
 		if e.Ok {
 			nm.storeHeld[k] = true
+			if e.Kind == spi.EvStoreC {
+				hk := hvh{e.H, e.V, e.Hash}
+				if nm.heldC[hk] == nil {
+					nm.heldC[hk] = map[string]bool{}
+				}
+				nm.heldC[hk][e.Sender] = true
+			}
 		} else if !nm.storeHeld[k] {
 			nm.storeRefused[k] = true // the Storage turned down a message it does not hold
 		}
